@@ -189,6 +189,7 @@ func finishRun(prop, tier string, seed int64, reps []*Report, verifDir, evidence
 	var knownLines []string
 	usedKnown := map[string]bool{}
 	seenViol := map[string]bool{}
+	perRuleViol := map[string]int{}
 	distinct := map[string]bool{}
 	discharged := 0
 	for _, o := range all {
@@ -219,11 +220,20 @@ func finishRun(prop, tier string, seed int64, reps []*Report, verifDir, evidence
 		seenViol[o.Key+o.Config] = true
 		violations++
 		exit = 1
+		perRuleViol[o.Rule]++
+		if perRuleViol[o.Rule] > 6 {
+			continue
+		}
 		rp := filepath.Join(replayDir, fmt.Sprintf("%s.%s.%s.json", prop, strings.ReplaceAll(o.Rule, "/", "_"), hashKey(o.Key)))
 		b, _ := json.MarshalIndent(map[string]interface{}{"property": prop, "obligation": o, "replay": "./run.sh " + prop + " " + tier + " (re-evaluates every obligation of the property on the current tree; this one is key=" + o.Key + ")"}, "", " ")
 		os.WriteFile(rp, b, 0o644)
 		fmt.Printf("VIOLATION property=%s replay=%s\n", prop, rp)
 		fmt.Printf("  %s: rule %s [%s] %s\n    required: %s\n    found:    %s\n", o.Pos, o.Rule, o.Config, o.Key, o.What, o.Detail)
+	}
+	for rule, n := range perRuleViol {
+		if n > 6 {
+			fmt.Printf("  … and %d more violation(s) of rule %s (all listed in the evidence file)\n", n-6, rule)
+		}
 	}
 	for _, u := range undecided {
 		violations++
@@ -246,7 +256,7 @@ func finishRun(prop, tier string, seed int64, reps []*Report, verifDir, evidence
 			perRule[o.Rule]++
 			samples = append(samples, o)
 		}
-		if len(samples) >= 60 {
+		if len(samples) >= 200 {
 			break
 		}
 	}
